@@ -65,3 +65,21 @@ pub fn auth_response_layout(b: &[u8]) -> (bool, String) {
     want.extend_from_slice(&[0x90, 0x00]);
     (r != want, format!("flags {:#04x} counter {counter}: encoded {:02x?}, layout says {:02x?}", b[0], r, want))
 }
+
+// C17, registration response: reserved byte 0x05, public key (0x04 || x || y), one-byte key-handle length, key handle, certificate,
+// signature, success status word -- the order the statement gives.  arg: "<key handle len>|<certificate len>|<signature len>"
+pub fn register_response_layout(arg: &str) -> (bool, String) {
+    use passkey_types::u2f::{PublicKey, RegisterResponse};
+    let n: Vec<usize> = arg.split('|').filter_map(|x| x.parse().ok()).collect();
+    if n.len() != 3 || n[0] > 255 { return (false, "need kh|cert|sig lengths, kh <= 255".into()); }
+    let fill = |base: u8, len: usize| -> Vec<u8> { (0..len).map(|i| base.wrapping_add((i as u8).wrapping_mul(3))).collect() };
+    let (x, y) = ([0x11u8; 32], [0x22u8; 32]);
+    let (kh, cert, sig) = (fill(0x30, n[0]), fill(0xc0, n[1]), fill(0x50, n[2]));
+    let r = RegisterResponse { public_key: PublicKey { x, y }, key_handle: kh.clone(), attestation_certificate: cert.clone(), signature: sig.clone() }.encode();
+    let mut want = vec![0x05u8, 0x04];
+    want.extend_from_slice(&x); want.extend_from_slice(&y);
+    want.push(n[0] as u8);
+    want.extend_from_slice(&kh); want.extend_from_slice(&cert); want.extend_from_slice(&sig);
+    want.extend_from_slice(&[0x90, 0x00]);
+    (r != want, format!("key handle {} certificate {} signature {} bytes: encoded {:02x?}, layout says {:02x?}", n[0], n[1], n[2], r, want))
+}
